@@ -52,9 +52,47 @@ def _with_ctx(node: ast.AST, stop) -> list[str]:
     return out
 
 
+_LOCK_NAMES: set[str] = set()
+_LOCK_CTORS = ("threading.Lock", "threading.RLock", "threading.Condition", "threading.Semaphore", "threading.BoundedSemaphore")
+
+
+def _collect_lock_names(ctx) -> None:
+    """Names that denote locks by construction: bound to threading.Lock()/RLock()/Condition() (or to a container of
+    them) anywhere in the module, or parameters annotated with a threading lock type.  Recognising a lock by what it
+    is bound to - not by how the variable is spelled - keeps the rules valid when a local is renamed."""
+    _LOCK_NAMES.clear()
+    mod = ctx.repo.module(ED)
+
+    def makes_lock(e) -> bool:
+        return any(isinstance(x, ast.Call) and dotted_of(x.func) in _LOCK_CTORS for x in ast.walk(e))
+
+    for f in mod.all_funcs:
+        for n in own_nodes(f.node):
+            if isinstance(n, (ast.Assign, ast.AnnAssign)) and getattr(n, "value", None) is not None and makes_lock(n.value):
+                for t in n.targets if isinstance(n, ast.Assign) else [n.target]:
+                    _LOCK_NAMES.add(norm(t))
+            elif isinstance(n, (ast.Assign, ast.AnnAssign)) and getattr(n, "value", None) is not None:
+                # aliases: self._x = <lock parameter / lock name>
+                v = norm(n.value)
+                if v in _LOCK_NAMES:
+                    for t in n.targets if isinstance(n, ast.Assign) else [n.target]:
+                        _LOCK_NAMES.add(norm(t))
+        a = f.node.args if not isinstance(f.node, ast.Lambda) else None
+        if a is not None:
+            for p_ in a.posonlyargs + a.args + a.kwonlyargs:
+                if p_.annotation is not None and "threading.Lock" in norm(p_.annotation):
+                    _LOCK_NAMES.add(p_.arg)
+    # second pass for aliases of parameters (self._tensor_write_locks = tensor_write_locks)
+    for f in mod.all_funcs:
+        for n in own_nodes(f.node):
+            if isinstance(n, (ast.Assign, ast.AnnAssign)) and getattr(n, "value", None) is not None and norm(n.value) in _LOCK_NAMES:
+                for t in n.targets if isinstance(n, ast.Assign) else [n.target]:
+                    _LOCK_NAMES.add(norm(t))
+
+
 def _lockish(t: str) -> bool:
     base = t.split("[")[0]
-    return base.endswith(("_lock", "_locks", "_condition", "Lock()", "lock"))
+    return base in _LOCK_NAMES or base.endswith(("_lock", "_locks", "_condition", "Lock()"))
 
 
 def rule_r1_r2(ctx):
@@ -400,6 +438,8 @@ def rule_r7(ctx):
 
 
 def run(ctx):
+    _collect_lock_names(ctx)
+    ctx.tables["lock names (by construction)"] = sorted(_LOCK_NAMES)
     rule_r1_r2(ctx)
     rule_r3(ctx)
     rule_r4(ctx)
